@@ -70,7 +70,78 @@ def callsite_scenario(ctx, job):
 
 
 def worker(ctx, job):
-    {'conv': conv_scenario, 'site': callsite_scenario}[job['kind']](ctx, job)
+    {'conv': conv_scenario, 'site': callsite_scenario, 'paths': lambda c, j: transfer_paths(c, j)}[job['kind']](ctx, job)
+
+
+def transfer_paths(ctx, job):
+    """expiry through the real transfer paths: (pull) the destination-side pipeline of C03 with a volatile source key whose
+    ttl is a symbolic number and which may expire between the pipelined DUMP and PTTL; (scan) the source-side
+    scan_and_migrate_keys: whatever reaches the destination as RESTORE carries a ttl that keeps the key volatile"""
+    from props import C03
+    from props import executor as X
+    def setup(e): e.loop_budget = 100000
+    def run(e):
+        ttl = z3.BitVec('ttl', 64); e.assume(zand([z3.UGE(ttl, 1), z3.ULT(ttl, 1 << 62)]))
+        ttl_txt = RVec([], text=RStr((NumStr(ttl, 64),)))
+        restores = []
+        class R(C03.Redis):
+            wants_vecs = True
+            def execute(self, e_, elems, restore_fault=None):
+                name = X.as_bytes(elems[0]).upper(); k = X.as_bytes(elems[1]) if len(elems) > 1 else None
+                if name == b'PTTL' and k in self.db and self.db[k][1] == 'sym':
+                    self.log.append((name, k))
+                    return Enum('Resp', e_.src.variant_index('Resp', 'Integer'), [ttl_txt])
+                if name == b'RESTORE':
+                    restores.append((self.name, self.vecs[2]))      # the ttl argument as sent
+                    self.log.append((name, k))
+                    if k in self.db: return X.error(e_, b'BUSYKEY Target key name already exists.')
+                    self.db[k] = (list(elems[3]), 'restored'); return X.simple(e_, b'OK')
+                return C03.Redis.execute(self, e_, elems, restore_fault)
+        if job['path'] == 'pull':
+            w = C03.World(e, {})
+            w.src = R('src'); w.dst = R('dst')
+            w.src.db[C03.K] = ([7, 7], 'sym')
+            expired = [False]
+            def between(which, name):
+                # the key may expire on the source between two pipelined commands
+                if which == 'src' and name == b'DUMP' and job.get('expire') and e.choose(2, 'expires-now') == 1:
+                    w.src.db.pop(C03.K, None); expired[0] = True
+            w.between_pipelined = between
+            rcv, r = w.client([list(b'GET'), list(C03.K)])
+            for _ in range(12):
+                w.pump()
+                if w.qdst.q: w.step_backend('dst')
+                elif w.qsrc.q: w.step_backend('src')
+                else: break
+            w.pump()
+        else:
+            src, dst = R('src'), R('dst')
+            src.db[b'ka'] = ([7], 'sym')
+            srcc = C03.ScanClient(src, [b'ka'], lambda rem: 1); dstc = C03.ScanClient(dst, [], None)
+            rl = Struct('RangeList', [RVec([Cell(Struct('Range', [0, 16383]))])])
+            sra = e.run_func(e.find_fn('SlotRangeArray', 'new'), [rl])
+            mutex = Struct('SlotMutex', [RVec([Cell(Struct('Atomic', [False])) for _ in range(16384)])])
+            df = [f for f in e.mir.all_funcs if f.name.endswith('::default') and f.ret.endswith('MigrationStats')][0]
+            e.generic_env.update({'F': 'DstFactory', 'T': 'CmdCtx', 'C': 'ScanClient'})
+            fut = e.run_func(e.find_fn('ScanMigrationTask', 'scan_and_migrate_keys'), [Ref(Cell(sra)), 0, NONE(), Ref(Cell(srcc)), RStr('dst:6379'), Ref(Cell(C03.DstFactory(dstc)), 'Arc'), 1, Ref(Cell(mutex)), Ref(Cell(e.run_func(df, [])))])
+            e.block_on(Ref(Cell(fut)))
+        items = []
+        for where, arg in restores:
+            dv = deref_vec(arg)
+            def wit(m, dv=dv): return {'path': job['path'], 'source_ttl_ms': concretize(ttl, m), 'restore_ttl_argument': concretize(dv.text, m) if dv.text is not None else bytes(concretize(c.v, m) for c in dv.cells).decode('latin1')}
+            if dv.text is not None:
+                parts = norm_parts(str_parts(dv.text))
+                ok = isinstance(parts, tuple) and len(parts) == 1 and isinstance(parts[0], NumStr) and zand([z3.UGE(bv(parts[0].v), 1), z3.ULE(bv(parts[0].v), ttl)])
+                if isinstance(parts, str): ok = parts.isdigit() and int(parts) >= 1
+            else:
+                bs = X.as_bytes([c.v for c in dv.cells])
+                ok = bs is not None and bs.isdigit() and int(bs) >= 1
+            items.append(('volatile-key-stays-volatile', 'C19/volatile-key-restored-as-persistent/' + job['path'], ok, wit))
+        items.append(('transfer-ran', 'C19/transfer-path-did-not-run', len(restores) >= (0 if job.get('expire') else 1), lambda m: {'path': job['path']}))
+        ctx.require_all(e, items)
+        return 1
+    res = ctx.explore('expiry through the %s path (expire between DUMP and PTTL: %s)' % (job['path'], job.get('expire')), run, engine_setup=setup)
+    ctx.ops += len(res)
 
 
 def run(ctx):
@@ -78,10 +149,11 @@ def run(ctx):
     L = 10 if quick else 18
     jobs = [{'kind': 'conv', 'n': n} for n in range(0, L + 1)]
     jobs += [{'kind': 'site', 'key': 2, 'data': 2, 'pttl': p} for p in (1, 2, 3)]
+    jobs += [{'kind': 'paths', 'path': 'pull'}, {'kind': 'paths', 'path': 'pull', 'expire': True}, {'kind': 'paths', 'path': 'scan'}]
     ctx.bounds = {'pttl reply length': '0..%d bytes, every byte value' % L, 'call site': 'gen_restore_resp with 2-byte symbolic key/payload and 1..3 symbolic pttl bytes'}
     ctx.assumptions += ['RESTORE reads ttl 0 as "no expiry" (Redis documentation)', 'btoi is a model (validated against the real crate by the Kani harness kani/migration__scan_migration.rs)',
                         'for a PTTL reply of 0 any positive ttl is accepted (no positive ttl <= 0 exists)']
-    ctx.not_explored += ['interleavings of the three transfer paths (C03, not applicable)', 'the scan path builder inside the async forward_entries (it calls the same conversion)', 'replies longer than the bound (up to 2^63-1 needs 19 digits)']
+    ctx.not_explored += ['interleavings of the three transfer paths (C03, not applicable)', 'replies longer than the bound (up to 2^63-1 needs 19 digits)']
     ctx.run_parallel(jobs, worker)
     from vlib import kani
     kani.run(ctx, ['pttl_matches_reference_len4'] if quick else ['pttl_matches_reference_len4', 'pttl_matches_reference_len5'], expect_fail=['pttl_vacuity_witness'])
